@@ -77,8 +77,7 @@ func runC05History(c HistCase, ev *Evid) (fs []Finding) {
 			return f
 		}
 		if h.m.Stats.Z1 {
-			ev.Discard("Z1-float32-xff-boundary")
-			return nil
+			ev.Class("float32-xff-boundary-met")
 		}
 		if h.db == nil {
 			break
